@@ -103,6 +103,48 @@ pub struct AgentLogCase {
     pub rust_log: Option<u8>,
     /// 0 success, 1 server closes right after the hello, 2 IRR unreachable, 3 wrong port
     pub outcome: u8,
+    /// how the key reaches the agent: 0 the committed files (certificate and key apart);
+    /// 1 key file = key followed by the certificate; 2 certificate file = certificate followed by
+    /// the key (a bundle; the key file is given as well); 3 key file with its line breaks turned
+    /// into spaces; 4 key file with CR line ends; 5 key file without its END line; 6 key file
+    /// with a line of text before the PEM block; 7 key file = certificate followed by the key
+    #[serde(default)]
+    pub layout: u8,
+}
+
+/// write the certificate / key files of a layout under /verif/target (never /tmp); returns
+/// (certificate path, key path, directory to remove afterwards)
+fn layout_files(crt: &str, keyfile: &str, layout: u8) -> Option<(String, String, Option<std::path::PathBuf>)> {
+    let pki = net::pki_dir();
+    let (crt_p, key_p) = (pki.join(crt), pki.join(keyfile));
+    if layout == 0 {
+        return Some((crt_p.display().to_string(), key_p.display().to_string(), None));
+    }
+    static N: std::sync::atomic::AtomicUsize = std::sync::atomic::AtomicUsize::new(0);
+    let dir = crate::core::verif_root().join("target").join("c20-files").join(format!(
+        "{}-{}",
+        std::process::id(),
+        N.fetch_add(1, std::sync::atomic::Ordering::Relaxed)
+    ));
+    std::fs::create_dir_all(&dir).ok()?;
+    let cert = std::fs::read_to_string(&crt_p).ok()?;
+    let key = std::fs::read_to_string(&key_p).ok()?;
+    let (new_cert, new_key) = match layout {
+        1 => (cert.clone(), format!("{key}{cert}")),
+        2 => (format!("{cert}{key}"), key.clone()),
+        3 => (cert.clone(), format!("{}\n", key.trim_end().replace('\n', " "))),
+        4 => (cert.clone(), format!("{}\n", key.trim_end().replace('\n', "\r"))),
+        5 => (
+            cert.clone(),
+            key.lines().filter(|l| !l.starts_with("-----END")).map(|l| format!("{l}\n")).collect(),
+        ),
+        6 => (cert.clone(), format!("Bag Attributes: client key\n{key}")),
+        _ => (cert.clone(), format!("{cert}{key}")),
+    };
+    let (c, k) = (dir.join("client.crt"), dir.join("client.key"));
+    std::fs::write(&c, new_cert).ok()?;
+    std::fs::write(&k, new_key).ok()?;
+    Some((c.display().to_string(), k.display().to_string(), Some(dir)))
 }
 
 const KEY_FILES: &[(&str, &str)] = &[
@@ -166,12 +208,14 @@ impl Prop for C20Agent {
             prop_oneof![1 => Just(0u8), 1 => Just(1u8), 2 => Just(2u8), 2 => Just(3u8), 3 => Just(4u8)],
             prop::option::weighted(0.4, 0u8..RUST_LOG.len() as u8),
             prop_oneof![4 => Just(0u8), 1 => Just(1u8), 1 => Just(2u8), 1 => Just(3u8)],
+            prop_oneof![3 => Just(0u8), 4 => 1u8..8],
         )
-            .prop_map(|(key, verbosity, rust_log, outcome)| AgentLogCase {
+            .prop_map(|(key, verbosity, rust_log, outcome, layout)| AgentLogCase {
                 key,
                 verbosity,
                 rust_log,
                 outcome,
+                layout,
             })
             .boxed()
     }
@@ -205,16 +249,25 @@ impl Prop for C20Agent {
             }
         };
         let directive = case.rust_log.map(|i| RUST_LOG[i as usize % RUST_LOG.len()]);
-        let res = match run_agent(&AgentOpts {
+        let Some((crt_path, key_path, scratch)) = layout_files(crt, keyfile, case.layout) else {
+            obs.fail("harness-sanity:setup", "cannot write the key files of the layout");
+            return obs;
+        };
+        obs.class(format!("key-file-layout:{}", case.layout));
+        let res = run_agent(&AgentOpts {
             netconf_port: if case.outcome == 3 { 1 } else { server.port },
             irr_port: if case.outcome == 2 { 1 } else { irrd.port },
             db: "bgpfu",
             verbosity: case.verbosity,
             rust_log: directive,
-            client_cert: crt,
-            client_key: keyfile,
+            client_cert: &crt_path,
+            client_key: &key_path,
             limit: Duration::from_secs(40),
-        }) {
+        });
+        if let Some(d) = scratch {
+            let _ = std::fs::remove_dir_all(d);
+        }
+        let res = match res {
             Ok(r) => r,
             Err(e) => {
                 obs.fail("harness-sanity:agent", e);
@@ -230,7 +283,6 @@ impl Prop for C20Agent {
             return obs;
         }
         let text = strip_ansi(&format!("{}\n{}", res.stderr, res.stdout));
-        let key_path = net::pki_dir().join(keyfile).display().to_string();
         let has_control = text.contains(&key_path);
         obs.nontrivial = has_control;
         obs.class(if has_control {
@@ -250,9 +302,15 @@ impl Prop for C20Agent {
         let pem = std::fs::read_to_string(net::pki_dir().join(keyfile)).unwrap_or_default();
         for line in pem.lines().filter(|l| !l.starts_with("-----") && l.len() >= 16) {
             if text.contains(line) {
+                let at = text.find(line).unwrap_or(0);
+                let from = text[..at].rfind('\n').map_or(0, |i| i + 1);
                 obs.fail(
-                    "private-key-in-log:pem-line",
-                    format!("the agent's output contains a line of the PEM body of {keyfile}"),
+                    format!("private-key-in-log:pem-line:key-file-layout-{}", case.layout),
+                    format!(
+                        "the agent's output contains a line of the PEM body of {keyfile} (key file layout {}); the record starts: {:?}",
+                        case.layout,
+                        &text[from..(from + 200).min(text.len())]
+                    ),
                 );
                 return obs;
             }
